@@ -280,3 +280,6 @@ impl<C> minicbor::CborLen<C> for OwnNil { fn cbor_len(&self, ctx: &mut C) -> usi
 /// A type alias hides the `Option` from the derive macros: nil handling has to come from the trait methods.
 pub type OptU8 = Option<u8>;
 pub fn draw_opt_alias(g: &mut Gen) -> OptU8 { if g.chance(100) { None } else { Some(g.u8()) } }
+
+/// `Box<Option<T>>`: presence of the inner value is drawn from the tape (it is not an optional *field*).
+pub fn draw_box_opt<'a, T: Draw<'a>>(g: &mut Gen, ar: &'a Arena) -> Box<Option<T>> { Box::new(if g.chance(110) { None } else { Some(T::draw(g, ar, &mut Presence::random())) }) }
